@@ -1,11 +1,1044 @@
 package sec
 
-import "verifharness/corr"
+import (
+	"bufio"
+	"bytes"
+	"context"
+	"crypto/ecdsa"
+	"crypto/elliptic"
+	crand "crypto/rand"
+	"crypto/tls"
+	"crypto/x509"
+	"crypto/x509/pkix"
+	"fmt"
+	"math/big"
+	"math/rand/v2"
+	"net"
+	"sync"
+	"time"
 
-// E2EInput is the replayable input of an end-to-end case (filled in below).
+	"github.com/pion/rtcp"
+	"github.com/pion/rtp"
+
+	"github.com/bluenviron/gortsplib/v5"
+	"github.com/bluenviron/gortsplib/v5/pkg/base"
+	"github.com/bluenviron/gortsplib/v5/pkg/conn"
+	"github.com/bluenviron/gortsplib/v5/pkg/description"
+	"github.com/bluenviron/gortsplib/v5/pkg/format"
+	"github.com/bluenviron/gortsplib/v5/pkg/headers"
+
+	"verifharness/corr"
+)
+
+// E2EInput is the replayable input of an end-to-end session.
 type E2EInput struct {
-	Scenario string `json:"scenario"`
+	Scenario    string `json:"scenario"` // play | record | back
+	Proto       string `json:"proto"`    // udp | tcp
+	Formats     []int  `json:"formats"`  // formats per media
+	StartSeq    uint16 `json:"start_seq"`
+	N           int    `json:"n"` // packets per format
+	PayloadMax  int    `json:"payload_max"`
+	TamperEvery int    `json:"tamper_every,omitempty"` // alter every k-th protected RTP unit on its way to the receiver
+	TamperByte  bool   `json:"tamper_byte,omitempty"`  // whole byte instead of a single bit
+	TamperRTCP  bool   `json:"tamper_rtcp,omitempty"`  // also alter every second RTCP unit
+	Seed        uint64 `json:"seed"`
 }
 
-func runE2E(c *corr.Ctx)                 {}
-func replayE2E(c *corr.Ctx, in *Input) {}
+// ---------------------------------------------------------------------------------------------
+// TLS material generated at run time
+// ---------------------------------------------------------------------------------------------
+
+var (
+	certOnce sync.Once
+	certVal  tls.Certificate
+)
+
+func serverCert() tls.Certificate {
+	certOnce.Do(func() {
+		key, err := ecdsa.GenerateKey(elliptic.P256(), crand.Reader)
+		if err != nil {
+			panic(err)
+		}
+		tmpl := &x509.Certificate{
+			SerialNumber: big.NewInt(1), Subject: pkix.Name{CommonName: "verif"},
+			NotBefore: time.Now().Add(-time.Hour), NotAfter: time.Now().Add(24 * time.Hour),
+			KeyUsage: x509.KeyUsageDigitalSignature, ExtKeyUsage: []x509.ExtKeyUsage{x509.ExtKeyUsageServerAuth},
+			IPAddresses: []net.IP{net.ParseIP("127.0.0.1")}, DNSNames: []string{"localhost"},
+		}
+		der, err := x509.CreateCertificate(crand.Reader, tmpl, tmpl, &key.PublicKey, key)
+		if err != nil {
+			panic(err)
+		}
+		certVal = tls.Certificate{Certificate: [][]byte{der}, PrivateKey: key}
+	})
+	return certVal
+}
+
+// ---------------------------------------------------------------------------------------------
+// taps
+// ---------------------------------------------------------------------------------------------
+
+type unit struct {
+	side  string // who wrote it: server | client
+	trans string // udp | tcp
+	ch    int    // interleaved channel (tcp)
+	data  []byte
+}
+
+// pktKey identifies a packet of the stream under test: payload type (unique per format) and its
+// position in the format's stream (the sequence number unwrapped from StartSeq).
+type pktKey struct {
+	pt  uint8
+	idx int
+}
+
+// unwrap maps a 16-bit sequence number to the stream position nearest to the last one seen.
+type unwrap map[uint8]int
+
+func (u unwrap) idx(pt uint8, seq uint16, start uint16) int {
+	last, ok := u[pt]
+	if !ok {
+		last = -1
+	}
+	i := last + int(int16(seq-(start+uint16(last))))
+	if i > last {
+		u[pt] = i
+	}
+	return i
+}
+
+type wire struct {
+	mu        sync.Mutex
+	units     []unit           // everything written by either side (UDP datagrams, interleaved frames inside TLS)
+	arrived   map[pktKey]bool  // RTP units that reached the receiving side's tap unaltered
+	tampered  map[pktKey]bool  // RTP units altered on their way (original identity)
+	nTampered int
+	nTampRTCP int
+	rtpSeen   int
+	rtcpSeen  int
+	inUnwrap  unwrap
+	in        *E2EInput
+	rng       *rand.Rand
+	recvSide  string // which side receives the media under test: server | client
+}
+
+func isRTCP(b []byte) bool { return len(b) >= 2 && b[1] >= 200 && b[1] <= 207 }
+
+// alter flips one bit or changes one byte.
+func (w *wire) alter(b []byte) {
+	i := w.rng.IntN(len(b))
+	if w.in.TamperByte {
+		b[i] ^= byte(1 + w.rng.IntN(255))
+	} else {
+		b[i] ^= 1 << w.rng.IntN(8)
+	}
+}
+
+// incoming is called by the receiving side's tap with a unit it is about to hand to gortsplib;
+// it may alter the unit in place.
+func (w *wire) incoming(side string, b []byte) {
+	if side != w.recvSide || len(b) < 12 {
+		return
+	}
+	w.mu.Lock()
+	defer w.mu.Unlock()
+	if isRTCP(b) {
+		w.rtcpSeen++
+		if w.in.TamperRTCP && w.rtcpSeen%2 == 0 {
+			w.alter(b)
+			w.nTampRTCP++
+		}
+		return
+	}
+	k := pktKey{b[1] & 0x7f, w.inUnwrap.idx(b[1]&0x7f, uint16(b[2])<<8|uint16(b[3]), w.in.StartSeq)}
+	w.rtpSeen++
+	if w.in.TamperEvery > 0 && w.rtpSeen%w.in.TamperEvery == 0 {
+		w.alter(b)
+		w.tampered[k] = true
+		w.nTampered++
+		return
+	}
+	w.arrived[k] = true
+}
+
+func (w *wire) written(side, trans string, ch int, b []byte) {
+	w.mu.Lock()
+	w.units = append(w.units, unit{side, trans, ch, append([]byte{}, b...)})
+	w.mu.Unlock()
+}
+
+type tapPC struct {
+	*net.UDPConn
+	w    *wire
+	side string
+}
+
+func (t *tapPC) WriteTo(b []byte, addr net.Addr) (int, error) {
+	t.w.written(t.side, "udp", -1, b)
+	return t.UDPConn.WriteTo(b, addr)
+}
+
+func (t *tapPC) ReadFrom(b []byte) (int, net.Addr, error) {
+	n, a, err := t.UDPConn.ReadFrom(b)
+	if err == nil {
+		t.w.incoming(t.side, b[:n])
+	}
+	return n, a, err
+}
+
+func (w *wire) listenPacket(side string) func(network, address string) (net.PacketConn, error) {
+	return func(network, address string) (net.PacketConn, error) {
+		pc, err := net.ListenPacket(network, address)
+		if err != nil {
+			return nil, err
+		}
+		pc.(*net.UDPConn).SetReadBuffer(4 << 20)
+		return &tapPC{UDPConn: pc.(*net.UDPConn), w: w, side: side}, nil
+	}
+}
+
+// tapConn sits INSIDE the TLS session: it sees the RTSP messages and interleaved frames in clear.
+// Reads are re-framed so that a frame can be altered before gortsplib sees it.
+type tapConn struct {
+	net.Conn
+	w       *wire
+	side    string
+	rc      *conn.Conn
+	pending []byte
+	wbuf    bytes.Buffer // bytes written, parsed lazily into units
+	wmu     sync.Mutex
+	log     *[]any // RTSP requests / responses read by this side
+}
+
+func newTapConn(c net.Conn, w *wire, side string, log *[]any) *tapConn {
+	t := &tapConn{Conn: c, w: w, side: side, log: log}
+	t.rc = conn.NewConn(bufio.NewReader(c), nil)
+	return t
+}
+
+func (t *tapConn) Read(p []byte) (int, error) {
+	for len(t.pending) == 0 {
+		what, err := t.rc.Read()
+		if err != nil {
+			return 0, err
+		}
+		switch x := what.(type) {
+		case *base.InterleavedFrame:
+			pl := append([]byte{}, x.Payload...)
+			t.w.incoming(t.side, pl)
+			fr := base.InterleavedFrame{Channel: x.Channel, Payload: pl}
+			buf, err2 := fr.Marshal()
+			if err2 != nil {
+				return 0, err2
+			}
+			t.pending = buf
+		case *base.Request:
+			if t.log != nil {
+				t.w.mu.Lock()
+				*t.log = append(*t.log, cloneReq(x))
+				t.w.mu.Unlock()
+			}
+			buf, err2 := x.Marshal()
+			if err2 != nil {
+				return 0, err2
+			}
+			t.pending = buf
+		case *base.Response:
+			if t.log != nil {
+				t.w.mu.Lock()
+				*t.log = append(*t.log, cloneRes(x))
+				t.w.mu.Unlock()
+			}
+			buf, err2 := x.Marshal()
+			if err2 != nil {
+				return 0, err2
+			}
+			t.pending = buf
+		}
+	}
+	n := copy(p, t.pending)
+	t.pending = t.pending[n:]
+	return n, nil
+}
+
+func cloneReq(r *base.Request) *base.Request {
+	c := *r
+	c.Header = base.Header{}
+	for k, v := range r.Header {
+		c.Header[k] = append(base.HeaderValue{}, v...)
+	}
+	c.Body = append([]byte{}, r.Body...)
+	return &c
+}
+
+func cloneRes(r *base.Response) *base.Response {
+	c := *r
+	c.Header = base.Header{}
+	for k, v := range r.Header {
+		c.Header[k] = append(base.HeaderValue{}, v...)
+	}
+	c.Body = append([]byte{}, r.Body...)
+	return &c
+}
+
+func (t *tapConn) Write(p []byte) (int, error) {
+	t.wmu.Lock()
+	t.wbuf.Write(p)
+	// extract complete interleaved frames written so far ('$' ch len16 payload); RTSP text is skipped
+	for {
+		b := t.wbuf.Bytes()
+		if len(b) == 0 {
+			break
+		}
+		if b[0] == '$' {
+			if len(b) < 4 {
+				break
+			}
+			l := int(b[2])<<8 | int(b[3])
+			if len(b) < 4+l {
+				break
+			}
+			t.w.written(t.side, "tcp", int(b[1]), b[4:4+l])
+			t.wbuf.Next(4 + l)
+			continue
+		}
+		// a text message: up to the blank line plus Content-Length
+		i := bytes.Index(b, []byte("\r\n\r\n"))
+		if i < 0 {
+			break
+		}
+		cl := 0
+		for _, line := range bytes.Split(b[:i], []byte("\r\n")) {
+			if len(line) > 15 && bytes.EqualFold(line[:15], []byte("Content-Length:")) {
+				fmt.Sscanf(string(bytes.TrimSpace(line[15:])), "%d", &cl)
+			}
+		}
+		if len(b) < i+4+cl {
+			break
+		}
+		t.wbuf.Next(i + 4 + cl)
+	}
+	t.wmu.Unlock()
+	return t.Conn.Write(p)
+}
+
+type tapListener struct {
+	net.Listener
+	w   *wire
+	log *[]any
+}
+
+func (l *tapListener) Accept() (net.Conn, error) {
+	c, err := l.Listener.Accept()
+	if err != nil {
+		return nil, err
+	}
+	return newTapConn(c, l.w, "server", l.log), nil
+}
+
+// ---------------------------------------------------------------------------------------------
+// server side
+// ---------------------------------------------------------------------------------------------
+
+type rxPkt struct {
+	media int
+	pkt   *rtp.Packet
+}
+
+type handler struct {
+	mu       sync.Mutex
+	stream   *gortsplib.ServerStream
+	medias   []*description.Media
+	rx       []rxPkt
+	rtcpRx   int
+	decErrs  []string
+	lost     uint64
+	session  *gortsplib.ServerSession
+	recDesc  *description.Session
+	setupErr []string
+}
+
+func (h *handler) OnDescribe(_ *gortsplib.ServerHandlerOnDescribeCtx) (*base.Response, *gortsplib.ServerStream, error) {
+	h.mu.Lock()
+	defer h.mu.Unlock()
+	if h.stream == nil {
+		return &base.Response{StatusCode: base.StatusNotFound}, nil, nil
+	}
+	return &base.Response{StatusCode: base.StatusOK}, h.stream, nil
+}
+
+func (h *handler) OnAnnounce(ctx *gortsplib.ServerHandlerOnAnnounceCtx) (*base.Response, error) {
+	h.mu.Lock()
+	h.recDesc = ctx.Description
+	h.mu.Unlock()
+	return &base.Response{StatusCode: base.StatusOK}, nil
+}
+
+func (h *handler) OnSetup(ctx *gortsplib.ServerHandlerOnSetupCtx) (*base.Response, *gortsplib.ServerStream, error) {
+	h.mu.Lock()
+	defer h.mu.Unlock()
+	h.session = ctx.Session
+	if ctx.Session.State() == gortsplib.ServerSessionStatePreRecord {
+		return &base.Response{StatusCode: base.StatusOK}, nil, nil
+	}
+	return &base.Response{StatusCode: base.StatusOK}, h.stream, nil
+}
+
+func (h *handler) indexOf(m *description.Media, ms []*description.Media) int {
+	for i, x := range ms {
+		if x == m {
+			return i
+		}
+	}
+	return -1
+}
+
+func (h *handler) OnPlay(ctx *gortsplib.ServerHandlerOnPlayCtx) (*base.Response, error) {
+	ctx.Session.OnPacketRTPAny(func(m *description.Media, _ format.Format, pkt *rtp.Packet) {
+		h.mu.Lock()
+		h.rx = append(h.rx, rxPkt{h.indexOf(m, h.medias), pkt})
+		h.mu.Unlock()
+	})
+	ctx.Session.OnPacketRTCPAny(func(_ *description.Media, _ rtcp.Packet) {
+		h.mu.Lock()
+		h.rtcpRx++
+		h.mu.Unlock()
+	})
+	return &base.Response{StatusCode: base.StatusOK}, nil
+}
+
+func (h *handler) OnRecord(ctx *gortsplib.ServerHandlerOnRecordCtx) (*base.Response, error) {
+	ms := ctx.Session.AnnouncedDescription().Medias
+	ctx.Session.OnPacketRTPAny(func(m *description.Media, _ format.Format, pkt *rtp.Packet) {
+		h.mu.Lock()
+		h.rx = append(h.rx, rxPkt{h.indexOf(m, ms), pkt})
+		h.mu.Unlock()
+	})
+	ctx.Session.OnPacketRTCPAny(func(_ *description.Media, _ rtcp.Packet) {
+		h.mu.Lock()
+		h.rtcpRx++
+		h.mu.Unlock()
+	})
+	return &base.Response{StatusCode: base.StatusOK}, nil
+}
+
+func (h *handler) OnDecodeError(ctx *gortsplib.ServerHandlerOnDecodeErrorCtx) {
+	h.mu.Lock()
+	h.decErrs = append(h.decErrs, ctx.Error.Error())
+	h.mu.Unlock()
+}
+
+func (h *handler) OnPacketsLost(ctx *gortsplib.ServerHandlerOnPacketsLostCtx) {
+	h.mu.Lock()
+	h.lost += ctx.Lost
+	h.mu.Unlock()
+}
+
+func (h *handler) OnStreamWriteError(ctx *gortsplib.ServerHandlerOnStreamWriteErrorCtx) {
+	h.mu.Lock()
+	h.setupErr = append(h.setupErr, "stream write error: "+ctx.Error.Error())
+	h.mu.Unlock()
+}
+
+type testServer struct {
+	s       *gortsplib.Server
+	h       *handler
+	w       *wire
+	addr    string // host:port of the RTSP listener
+	reqLog  []any  // requests read by the server (inside TLS)
+	tlsOn   bool
+	udpOn   bool
+	rtpPort int
+}
+
+// freeUDPPair finds an even port p with p and p+1 free.
+func freeUDPPair(r *rand.Rand) int {
+	for try := 0; try < 200; try++ {
+		p := 20000 + 2*r.IntN(20000)
+		a, err := net.ListenPacket("udp", fmt.Sprintf("127.0.0.1:%d", p))
+		if err != nil {
+			continue
+		}
+		b, err := net.ListenPacket("udp", fmt.Sprintf("127.0.0.1:%d", p+1))
+		a.Close()
+		if err != nil {
+			continue
+		}
+		b.Close()
+		return p
+	}
+	panic("no free UDP port pair")
+}
+
+func startServer(w *wire, r *rand.Rand, tlsOn, udpOn bool) (*testServer, error) {
+	ts := &testServer{h: &handler{}, w: w, tlsOn: tlsOn, udpOn: udpOn}
+	var lastErr error
+	for try := 0; try < 5; try++ {
+		s := &gortsplib.Server{
+			Handler:      ts.h,
+			RTSPAddress:  "127.0.0.1:0",
+			ListenPacket: w.listenPacket("server"),
+			ReadTimeout:  5 * time.Second,
+			WriteTimeout: 5 * time.Second,
+		}
+		ln := func(network, address string) (net.Listener, error) {
+			l, err := net.Listen("tcp", "127.0.0.1:0")
+			if err != nil {
+				return nil, err
+			}
+			ts.addr = l.Addr().String()
+			return l, nil
+		}
+		if tlsOn {
+			cfg := &tls.Config{Certificates: []tls.Certificate{serverCert()}}
+			s.TLSConfig = cfg
+			s.TLSListen = func(network, address string, c *tls.Config) (net.Listener, error) {
+				l, err := ln(network, address)
+				if err != nil {
+					return nil, err
+				}
+				return &tapListener{Listener: tls.NewListener(l, c), w: w, log: &ts.reqLog}, nil
+			}
+		} else {
+			s.Listen = func(network, address string) (net.Listener, error) {
+				l, err := ln(network, address)
+				if err != nil {
+					return nil, err
+				}
+				return &tapListener{Listener: l, w: w, log: &ts.reqLog}, nil
+			}
+		}
+		if udpOn {
+			ts.rtpPort = freeUDPPair(r)
+			s.UDPRTPAddress = fmt.Sprintf("127.0.0.1:%d", ts.rtpPort)
+			s.UDPRTCPAddress = fmt.Sprintf("127.0.0.1:%d", ts.rtpPort+1)
+		}
+		s.VerifSetReportPeriods(150*time.Millisecond, 150*time.Millisecond)
+		if err := s.Start(); err != nil {
+			lastErr = err
+			continue
+		}
+		ts.s = s
+		return ts, nil
+	}
+	return nil, lastErr
+}
+
+func mkDesc(formats []int, back bool) *description.Session {
+	d := &description.Session{}
+	for mi, nf := range formats {
+		m := &description.Media{Type: description.MediaTypeVideo}
+		if back && mi == len(formats)-1 {
+			m.IsBackChannel = true
+			m.Type = description.MediaTypeAudio
+		}
+		for f := 0; f < nf; f++ {
+			g := &format.Generic{PayloadTyp: uint8(96 + 4*mi + f), RTPMa: "private/90000"}
+			if err := g.Init(); err != nil {
+				panic(err)
+			}
+			m.Formats = append(m.Formats, g)
+		}
+		d.Medias = append(d.Medias, m)
+	}
+	return d
+}
+
+// ---------------------------------------------------------------------------------------------
+// one secure session with taps
+// ---------------------------------------------------------------------------------------------
+
+type sentPkt struct {
+	media   int
+	pt      uint8
+	seq     uint16
+	payload []byte
+	plain   int // size of the plain RTP packet
+}
+
+func payloadFor(r *rand.Rand, media int, pt uint8, idx int, maxLen int) []byte {
+	head := fmt.Sprintf("%s/m%d/pt%d/#%d/", marker, media, pt, idx)
+	n := len(head) + r.IntN(maxLen+1)
+	b := make([]byte, n)
+	copy(b, head)
+	for i := len(head); i < n; i++ {
+		b[i] = byte('a' + (i*7+idx)%26) // compressible, recognisable plain text
+	}
+	return b
+}
+
+func e2eViol(c *corr.Ctx, clause, key string, in *E2EInput, detail string) {
+	c.Violate(corr.Violation{Property: prop, Clause: clause, Key: key, Where: "secure session (" + in.Scenario + "/" + in.Proto + ")", Input: &Input{Kind: "e2e", E2E: in}, Detail: detail})
+}
+
+func waitFor(d time.Duration, f func() bool) bool {
+	end := time.Now().Add(d)
+	for time.Now().Before(end) {
+		if f() {
+			return true
+		}
+		time.Sleep(2 * time.Millisecond)
+	}
+	return f()
+}
+
+func runSession(c *corr.Ctx, in *E2EInput, name string) {
+	rng := rand.New(rand.NewPCG(in.Seed, 17))
+	w := &wire{arrived: map[pktKey]bool{}, tampered: map[pktKey]bool{}, inUnwrap: unwrap{}, in: in, rng: rand.New(rand.NewPCG(in.Seed, 99))}
+	if in.Scenario == "play" {
+		w.recvSide = "client"
+	} else {
+		w.recvSide = "server"
+	}
+	ts, err := startServer(w, rng, true, true)
+	if err != nil {
+		c.Note("e2e: server did not start: " + err.Error())
+		return
+	}
+	defer ts.s.Close()
+	h := ts.h
+
+	back := in.Scenario == "back"
+	desc := mkDesc(in.Formats, back)
+	if in.Scenario != "record" {
+		st := &gortsplib.ServerStream{Server: ts.s, Desc: desc}
+		if err = st.Initialize(); err != nil {
+			c.Note("e2e: stream: " + err.Error())
+			return
+		}
+		defer st.Close()
+		h.mu.Lock()
+		h.stream = st
+		h.medias = desc.Medias
+		h.mu.Unlock()
+	}
+
+	// client
+	var cl *gortsplib.Client
+	var cmu sync.Mutex
+	var crx []rxPkt
+	var cDecErrs []string
+	var cRTCP int
+	var resLog []any
+	proto := gortsplib.ProtocolUDP
+	if in.Proto == "tcp" {
+		proto = gortsplib.ProtocolTCP
+	}
+	tlsCfg := &tls.Config{InsecureSkipVerify: true} //nolint:gosec
+	cl = &gortsplib.Client{
+		Scheme:              "rtsps",
+		Host:                ts.addr,
+		Protocol:            &proto,
+		TLSConfig:           tlsCfg,
+		RequestBackChannels: back,
+		ListenPacket:        w.listenPacket("client"),
+		ReadTimeout:         5 * time.Second,
+		WriteTimeout:        5 * time.Second,
+		DialTLSContext: func(ctx context.Context, network, addr string) (net.Conn, error) {
+			nc, err := (&net.Dialer{}).DialContext(ctx, network, addr)
+			if err != nil {
+				return nil, err
+			}
+			tc := tls.Client(nc, tlsCfg)
+			if err = tc.HandshakeContext(ctx); err != nil {
+				nc.Close()
+				return nil, err
+			}
+			return newTapConn(tc, w, "client", &resLog), nil
+		},
+		OnDecodeError: func(err error) {
+			cmu.Lock()
+			cDecErrs = append(cDecErrs, err.Error())
+			cmu.Unlock()
+		},
+		OnPacketsLost:     func(uint64) {},
+		OnTransportSwitch: func(error) {},
+	}
+	cl.VerifSetReportPeriods(150*time.Millisecond, 150*time.Millisecond)
+	u, _ := base.ParseURL("rtsps://" + ts.addr + "/stream")
+
+	fail := func(what string, err error) {
+		e2eViol(c, "a secure session can be established", "sec-e2e-setup/"+in.Scenario+"/"+in.Proto, in, what+": "+err.Error())
+	}
+
+	var clientMedias []*description.Media
+	switch in.Scenario {
+	case "play", "back":
+		if err = cl.Start(); err != nil {
+			fail("start", err)
+			return
+		}
+		defer cl.Close()
+		d, _, err2 := cl.Describe(u)
+		if err2 != nil {
+			fail("describe", err2)
+			return
+		}
+		clientMedias = d.Medias
+		if err = cl.SetupAll(d.BaseURL, d.Medias); err != nil {
+			fail("setup", err)
+			return
+		}
+		cl.OnPacketRTPAny(func(m *description.Media, _ format.Format, pkt *rtp.Packet) {
+			cmu.Lock()
+			idx := -1
+			for i, x := range clientMedias {
+				if x == m {
+					idx = i
+				}
+			}
+			crx = append(crx, rxPkt{idx, pkt})
+			cmu.Unlock()
+		})
+		cl.OnPacketRTCPAny(func(_ *description.Media, _ rtcp.Packet) {
+			cmu.Lock()
+			cRTCP++
+			cmu.Unlock()
+		})
+		if _, err = cl.Play(nil); err != nil {
+			fail("play", err)
+			return
+		}
+	case "record":
+		clientMedias = desc.Medias
+		for _, m := range desc.Medias {
+			m.Profile = headers.TransportProfileSAVP // over TCP the client protects the media only when the description asks for it
+		}
+		if err = cl.StartRecording("rtsps://"+ts.addr+"/stream", desc); err != nil {
+			fail("record", err)
+			return
+		}
+		defer cl.Close()
+	}
+
+	// ---- session-level facts (hooks) ----
+	h.mu.Lock()
+	sess := h.session
+	h.mu.Unlock()
+	if sess == nil {
+		e2eViol(c, "a secure session can be established", "sec-e2e-no-session", in, "no server session")
+		return
+	}
+	sin, sout, smed := sess.VerifSessionSRTP()
+	cin, cout, cmed := cl.VerifClientSRTP()
+	if sin != smed || sout != smed || cin != cmed || cout != cmed || smed != len(in.Formats) || cmed != len(in.Formats) {
+		e2eViol(c, "every media of a secure session owns both SRTP contexts on both sides", "sec-e2e-contexts", in,
+			fmt.Sprintf("server in/out/medias %d/%d/%d client %d/%d/%d", sin, sout, smed, cin, cout, cmed))
+	}
+	serverMedias := desc.Medias
+	if in.Scenario == "record" {
+		serverMedias = sess.AnnouncedDescription().Medias
+	}
+	skeys := sess.VerifSessionSRTPKeysFor(serverMedias)
+	ckeys := cl.VerifClientSRTPKeysFor(clientMedias)
+	for mi := range in.Formats {
+		if mi >= len(skeys) || mi >= len(ckeys) || skeys[mi] == nil || ckeys[mi] == nil {
+			e2eViol(c, "both sides hold key material for every media", "sec-e2e-keys", in, fmt.Sprintf("media %d has no contexts", mi))
+			continue
+		}
+		ck, sk := ckeys[mi], skeys[mi]
+		if !bytes.Equal(ck[0], sk[2]) || !bytes.Equal(ck[1], sk[3]) || !bytes.Equal(ck[2], sk[0]) || !bytes.Equal(ck[3], sk[1]) ||
+			len(ck[0]) != 30 || len(ck[2]) != 30 {
+			e2eViol(c, "the key material exchanged through MIKEY is what the other side uses", "sec-e2e-keys", in, fmt.Sprintf("media %d: keys differ", mi))
+		}
+		if bytes.Equal(ck[0], ck[2]) {
+			e2eViol(c, "each direction has its own master key", "sec-e2e-key-reuse", in, fmt.Sprintf("media %d: same key both ways", mi))
+		}
+		for mj := 0; mj < mi; mj++ {
+			if ckeys[mj] != nil && (bytes.Equal(ckeys[mj][0], ck[0]) || bytes.Equal(ckeys[mj][2], ck[2])) {
+				e2eViol(c, "each media has its own master keys", "sec-e2e-key-reuse", in, fmt.Sprintf("medias %d and %d share a key", mj, mi))
+			}
+		}
+	}
+
+	// ---- send ----
+	sentBy := map[pktKey]*sentPkt{}
+	write := func(media int, pkt *rtp.Packet) error {
+		switch in.Scenario {
+		case "play":
+			return h.stream.WritePacketRTP(desc.Medias[media], pkt)
+		case "back":
+			return cl.WritePacketRTP(clientMedias[media], pkt)
+		default:
+			return cl.WritePacketRTP(clientMedias[media], pkt)
+		}
+	}
+	received := func() int { // units that reached the receiving side's tap
+		w.mu.Lock()
+		defer w.mu.Unlock()
+		return w.rtpSeen
+	}
+	var targets []struct {
+		media int
+		pt    uint8
+	}
+	for mi, nf := range in.Formats {
+		if back != desc.Medias[mi].IsBackChannel {
+			continue
+		}
+		for f := 0; f < nf; f++ {
+			targets = append(targets, struct {
+				media int
+				pt    uint8
+			}{mi, uint8(96 + 4*mi + f)})
+		}
+	}
+	time.Sleep(20 * time.Millisecond)
+	window := 40
+	total := 0
+	for i := 0; i < in.N; i++ {
+		for _, t := range targets {
+			pl := payloadFor(rng, t.media, t.pt, i, in.PayloadMax)
+			pkt := &rtp.Packet{Header: rtp.Header{Version: 2, PayloadType: t.pt, SequenceNumber: in.StartSeq + uint16(i), Timestamp: uint32(i) * 3000, Marker: i%5 == 0}, Payload: pl}
+			if err = write(t.media, pkt); err != nil {
+				e2eViol(c, "a secure session carries media", "sec-e2e-write", in, fmt.Sprintf("packet %d: %v", i, err))
+				return
+			}
+			sentBy[pktKey{t.pt, i}] = &sentPkt{t.media, t.pt, in.StartSeq + uint16(i), pl, 12 + len(pl)}
+			total++
+			if total%16 == 0 {
+				waitFor(2*time.Second, func() bool { return received() >= total-window })
+			}
+		}
+	}
+	waitFor(2*time.Second, func() bool { return received() >= total })
+	time.Sleep(300 * time.Millisecond) // let the last packets through and RTCP reports flow
+
+	// ---- the wire ----
+	w.mu.Lock()
+	units := append([]unit{}, w.units...)
+	tampered := map[pktKey]bool{}
+	for k := range w.tampered {
+		tampered[k] = true
+	}
+	arrived := map[pktKey]bool{}
+	for k := range w.arrived {
+		arrived[k] = true
+	}
+	nTamp, nTampRTCP := w.nTampered, w.nTampRTCP
+	w.mu.Unlock()
+
+	sendSide := "client"
+	if in.Scenario == "play" {
+		sendSide = "server"
+	}
+	outUnwrap := unwrap{}
+	rtpUnits, rtcpUnits := 0, 0
+	for _, un := range units {
+		if (in.Proto == "udp") != (un.trans == "udp") {
+			e2eViol(c, "media travels on the negotiated transport", "sec-e2e-transport", in, "unit on "+un.trans)
+			continue
+		}
+		if bytes.Contains(un.data, []byte(marker)) {
+			e2eViol(c, "RTP payload bytes never appear in clear in any datagram or interleaved frame", "sec-e2e-clear/"+un.trans, in,
+				fmt.Sprintf("unit of %d bytes written by the %s carries the plain marker", len(un.data), un.side))
+			continue
+		}
+		if isRTCP(un.data) {
+			rtcpUnits++
+			c.Dist("e2e-wire-rtcp-" + un.trans)
+			// SRTCP: E flag set in the index word that precedes the 10-byte tag
+			if len(un.data) < 8+4+10 {
+				e2eViol(c, "RTCP is protected", "sec-e2e-rtcp-short", in, fmt.Sprintf("%d bytes", len(un.data)))
+				continue
+			}
+			if un.data[len(un.data)-14]&0x80 == 0 {
+				e2eViol(c, "RTCP payload bytes never appear in clear", "sec-e2e-rtcp-clear", in, "SRTCP encryption flag not set")
+			}
+			// plain length from the RTCP length field(s): compound packets are walked in the clear part only
+			plainLen := (int(un.data[2])<<8|int(un.data[3]) + 1) * 4
+			if un.data[1] == 200 || un.data[1] == 201 { // first packet of the compound; gortsplib sends single reports
+				if len(un.data) != plainLen+14 {
+					e2eViol(c, "SRTCP overhead = 14 bytes", "sec-e2e-rtcp-size", in, fmt.Sprintf("plain %d wire %d", plainLen, len(un.data)))
+				}
+			}
+			continue
+		}
+		if len(un.data) < 12 {
+			continue
+		}
+		rtpUnits++
+		c.Dist("e2e-wire-rtp-" + un.trans)
+		if un.side != sendSide {
+			// the only RTP the receiving side writes are the firewall-opening packets (empty payload)
+			if len(un.data) != 12+10 {
+				e2eViol(c, "only protected packets leave a secure session", "sec-e2e-unexpected-rtp", in, fmt.Sprintf("%d bytes from %s", len(un.data), un.side))
+			}
+			continue
+		}
+		pt, seq := un.data[1]&0x7f, uint16(un.data[2])<<8|uint16(un.data[3])
+		if len(un.data) == 12+10 && pt == 0 && seq == 0 {
+			continue // firewall-opening packet
+		}
+		k := pktKey{pt, outUnwrap.idx(pt, seq, in.StartSeq)}
+		sp := sentBy[k]
+		if sp == nil || sp.seq != seq {
+			e2eViol(c, "every RTP unit on the wire is a protected packet that was written", "sec-e2e-unknown-rtp", in, fmt.Sprintf("pt %d seq %d", pt, seq))
+			continue
+		}
+		if len(un.data) != sp.plain+10 {
+			e2eViol(c, "wire size = plain size + 10 (SRTP overhead)", "sec-e2e-rtp-size", in, fmt.Sprintf("pt %d seq %d: wire %d, plain %d", pt, seq, len(un.data), sp.plain))
+		}
+		if bytes.Contains(un.data, sp.payload[len(marker):]) || bytes.Contains(un.data[12:], sp.payload[:8]) {
+			e2eViol(c, "RTP payload bytes never appear in clear", "sec-e2e-clear/"+un.trans, in, fmt.Sprintf("seq %d", seq))
+		}
+	}
+	if rtpUnits < total {
+		e2eViol(c, "the taps see every protected packet", "sec-e2e-tap-incomplete", in, fmt.Sprintf("%d RTP units for %d packets", rtpUnits, total))
+	}
+
+	// ---- delivery ----
+	var rx []rxPkt
+	var decErrs []string
+	if w.recvSide == "client" {
+		cmu.Lock()
+		rx, decErrs = append(rx, crx...), append(decErrs, cDecErrs...)
+		cmu.Unlock()
+	} else {
+		h.mu.Lock()
+		rx, decErrs = append(rx, h.rx...), append(decErrs, h.decErrs...)
+		h.mu.Unlock()
+	}
+	got := map[pktKey]bool{}
+	for _, r := range rx {
+		var m, ptIn, idx int
+		if _, err := fmt.Sscanf(string(r.pkt.Payload), marker+"/m%d/pt%d/#%d/", &m, &ptIn, &idx); err != nil {
+			e2eViol(c, "only packets written by the peer are delivered", "sec-e2e-forged-delivered", in, fmt.Sprintf("pt %d seq %d: unknown payload", r.pkt.PayloadType, r.pkt.SequenceNumber))
+			continue
+		}
+		k := pktKey{r.pkt.PayloadType, idx}
+		sp := sentBy[k]
+		switch {
+		case sp == nil:
+			e2eViol(c, "only packets written by the peer are delivered", "sec-e2e-forged-delivered", in, fmt.Sprintf("pt %d index %d", k.pt, k.idx))
+		case tampered[k]:
+			e2eViol(c, "packets altered in transit are rejected rather than delivered", "sec-e2e-tamper-delivered", in, fmt.Sprintf("pt %d index %d", k.pt, k.idx))
+		case !bytes.Equal(sp.payload, r.pkt.Payload) || sp.seq != r.pkt.SequenceNumber || sp.media != r.media:
+			e2eViol(c, "each side decrypts exactly what the other encrypts", "sec-e2e-payload-differs", in, fmt.Sprintf("pt %d index %d", k.pt, k.idx))
+		case got[k]:
+			c.Dist("e2e-duplicate-delivery")
+		}
+		got[k] = true
+	}
+	c.DistN("e2e-delivered", len(rx))
+	c.DistN("e2e-tampered", nTamp)
+	c.DistN("e2e-tampered-rtcp", nTampRTCP)
+	c.DistN("e2e-decode-errors", len(decErrs))
+	if len(decErrs) < nTamp+nTampRTCP {
+		e2eViol(c, "altered packets surface as decode errors", "sec-e2e-tamper-silent", in, fmt.Sprintf("%d altered units, %d decode errors", nTamp+nTampRTCP, len(decErrs)))
+	}
+	if nTamp+nTampRTCP == 0 && len(decErrs) > 0 {
+		e2eViol(c, "each side decrypts exactly what the other encrypts", "sec-e2e-decode-error", in, fmt.Sprintf("%d decode errors without tampering: %s", len(decErrs), decErrs[0]))
+	}
+	// liveness: everything that reached the receiver unaltered is delivered (except the reorder tail)
+	missing := 0
+	for k, sp := range sentBy {
+		if arrived[k] && !tampered[k] && !got[k] {
+			idx := k.idx
+			if idx < in.N-70 {
+				missing++
+				if missing == 1 {
+					e2eViol(c, "each side decrypts exactly what the other encrypts", "sec-e2e-not-delivered", in,
+						fmt.Sprintf("seq %d (packet %d of %d) reached the receiver unaltered and was not delivered; decode errors: %d", sp.seq, idx, in.N, len(decErrs)))
+				}
+			}
+		}
+	}
+	// roll-over counter on the sending stream
+	if in.Scenario == "play" && in.N > 0 {
+		ssrcOf := map[uint8]uint32{}
+		for _, un := range units {
+			if un.side == "server" && !isRTCP(un.data) && len(un.data) > 22 {
+				ssrcOf[un.data[1]&0x7f] = uint32(un.data[8])<<24 | uint32(un.data[9])<<16 | uint32(un.data[10])<<8 | uint32(un.data[11])
+			}
+		}
+		for _, t := range targets {
+			if roc, ok := h.stream.VerifStreamROC(t.media, ssrcOf[t.pt]); ok {
+				want := uint32((int(in.StartSeq) + in.N - 1) / 65536)
+				if roc != want {
+					e2eViol(c, "the roll-over counter advances with the sequence number", "sec-e2e-roc", in, fmt.Sprintf("media %d pt %d: ROC %d, expected %d", t.media, t.pt, roc, want))
+				}
+				if want > 0 {
+					c.Dist("e2e-roc-advanced")
+				}
+			}
+		}
+	}
+	c.Dist(fmt.Sprintf("e2e-%s-%s", in.Scenario, in.Proto))
+	c.CountOnly(fmt.Sprintf("e2e %+v", *in), total > 0)
+
+	// ---- correspondence: the SETUP exchanges of this session against the model ----
+	w.mu.Lock()
+	reqs := append([]any{}, ts.reqLog...)
+	ress := append([]any{}, resLog...)
+	w.mu.Unlock()
+	setupCorrespondence(c, in, name, reqs, ress, sin == smed && smed > 0, sout == smed && smed > 0)
+}
+
+func genE2E(c *corr.Ctx, scenario, proto string) *E2EInput {
+	r := c.Rng
+	in := &E2EInput{Scenario: scenario, Proto: proto, Seed: r.Uint64(), PayloadMax: 40 + r.IntN(900)}
+	nm := 1 + r.IntN(2)
+	if scenario == "back" {
+		nm = 2
+	}
+	for i := 0; i < nm; i++ {
+		in.Formats = append(in.Formats, 1+r.IntN(3))
+	}
+	in.N = 150 + r.IntN(c.N(150, 600))
+	switch r.IntN(3) {
+	case 0:
+		in.StartSeq = uint16(65536 - r.IntN(in.N))
+	case 1:
+		in.StartSeq = uint16(r.IntN(65536))
+	default:
+		in.StartSeq = uint16(32768 - r.IntN(in.N))
+	}
+	if r.IntN(3) != 0 {
+		in.TamperEvery = 5 + r.IntN(20)
+		in.TamperByte = r.IntN(2) == 0
+		in.TamperRTCP = r.IntN(2) == 0
+	}
+	return in
+}
+
+func runE2E(c *corr.Ctx) {
+	n := 0
+	for _, sc := range []string{"play", "record", "back"} {
+		for _, pr := range []string{"udp", "tcp"} {
+			for k := 0; k < c.N(1, 6); k++ {
+				in := genE2E(c, sc, pr)
+				if k == 0 {
+					in.TamperEvery, in.TamperByte, in.TamperRTCP = 7, false, true
+				}
+				runSession(c, in, fmt.Sprintf("e2e-%d", n))
+				n++
+			}
+		}
+	}
+	if !c.Quick() {
+		// the roll-over counter advances for real: > 65536 packets from sequence number 65000
+		for _, sc := range []string{"play", "record", "back"} {
+			for _, pr := range []string{"udp", "tcp"} {
+				in := &E2EInput{Scenario: sc, Proto: pr, Seed: c.Rng.Uint64(), PayloadMax: 60, Formats: []int{1}, StartSeq: 65000, N: 66200, TamperEvery: 997}
+				if sc == "back" {
+					in.Formats = []int{1, 1}
+				}
+				runSession(c, in, fmt.Sprintf("e2e-long-%s-%s", sc, pr))
+			}
+		}
+	}
+	runAdmission(c)
+	runClientSide(c)
+}
+
+func replayE2E(c *corr.Ctx, in *Input) {
+	switch in.Kind {
+	case "e2e":
+		runSession(c, in.E2E, "replay")
+	case "setup":
+		replaySetup(c, in)
+	case "client":
+		replayClient(c, in)
+	}
+}
